@@ -57,6 +57,24 @@ def gen_cases(ctx, rng):
             c["c10"] = {"family": "add", "at": R, "T": T}
             stats["added_later"] += 1
         cases.append(c)
+    # the toxic added while the connection's last stage is stuck handing data to a receiver that takes longer than the 5 s after which
+    # other parts of the code give up: the request waits for the stage, and from then on the toxic is in effect on that connection too
+    stats["added_under_back_pressure"] = 0
+    for i in range(10 if ctx.tier == "quick" else 200):
+        T = rng.choice([0, 500, 3000])
+        slow = rng.choice([6500, 9000, 15000]) * L.MS
+        A = 1 * L.MS + slow                      # the first write occupies the receiver until then; the second is handed over at that instant
+        src = [{"at": 1 * L.MS, "n": 100}, {"at": 2 * L.MS, "n": 100}]
+        t = A + 4 * slow
+        for _ in range(4):
+            src.append({"at": t, "n": 600})
+            t += 2 * slow
+        src.append({"at": t + 4 * slow, "close": True})
+        R = rng.range(50, 900) * L.MS + rng.range(1, 999)
+        cases.append({"dir": rng.choice(["upstream", "downstream"]), "chain": [L.tx("noop", name="n0")] if rng.chance(1, 2) else [], "src": src,
+                      "sink_delay": [slow, 0], "ops": [{"at": R, "op": "add", "toxic": L.tx("timeout", name="t", timeout=T)}],
+                      "horizon": 3600 * 1000 * L.MS, "seed": 5000 + i, "c10": {"family": "add", "at": A, "T": T}})
+        stats["added_under_back_pressure"] += 1
     # several connections through the same toxic, established at different times: each gets its own T
     stats["staggered_connections"] = 0
     for i in range(30 if ctx.tier == "quick" else 800):
@@ -134,10 +152,10 @@ def run(ctx):
         rule="links with one timeout toxic (T from {0,1,50,100,250,10000} ms) behind 0-2 noop/latency stages; 0-12 writes with periods "
              "below/near/above T (never exactly at T), sender closing before or after T; plus links where the toxic (T in {0,500,10000}) is removed at a "
              "random instant under continuous traffic with chunks parked in a latency stage upstream of it, and links where it is added on a "
-             "connection that already carries traffic; 2-3 connections established at different times through the same toxic; non-trivial = T > 0 and at least two writes "
+             "connection that already carries traffic, or whose last stage is blocked for 6.5-15 s towards a slow receiver when the request arrives; 2-3 connections established at different times through the same toxic; non-trivial = T > 0 and at least two writes "
              "arrive before T; distinct by JSON",
         nontrivial=lambda c: any(t["type"] == "timeout" and t["attributes"]["timeout"] > 0 for t in c["chain"]) and len(c["src"]) > 2,
-        assumptions=["the families with a removal or a late addition are judged by the oracle only (the executable model replays static chains)",
+        assumptions=["the families with a removal or a late addition are judged by the oracle and replayed through the executable reconfiguration model",
                      "a chunk arriving at exactly T is a genuine race in the code (select picks either arm); generators avoid the tie"],
         model_filter=lambda c: not c.get("ops") and not c.get("staggered"))
 
